@@ -130,12 +130,12 @@ Plans == <<
   <<"open", "write", "write", "write", "write", "write", "close", "reopen", "open", "write", "write", "close">>,
   \* 7: a durable session (explicit commit, closed), then auto-commit sessions of several commits (under
   \*    interval index persistence and a tiny file cap: unpersisted commits, rollover, persisted commits)
-  <<"open", "write", "commit", "close", "open", "write", "write", "write", "close", "open", "write", "write", "gc", "close">>
+  <<"open", "write", "commit", "close", "open", "write", "write", "commit", "write", "close", "open", "write", "commit", "close">>
 >>
 CanKind(kd) ==
   CASE kd = "open" -> ClosedW # {}
     [] kd = "write" -> \E w \in OpenW : LegalWrites(w) # {}
-    [] kd = "commit" -> \E w \in OpenW : ~wr[w].auto
+    [] kd = "commit" -> \E w \in OpenW : (~wr[w].auto \/ PlanId = 7)
     [] kd = "close" -> OpenW # {}
     [] kd = "delete" -> DeletesOn /\ AllClosed /\ AnyData
     [] kd = "gc" -> DeletesOn
@@ -156,7 +156,7 @@ GNextSim == GEnd \/
              IN W # {} /\ GWrite(w, IF PlanId \in {6, 7} THEN CHOOSE ts \in W : \A o \in W : Max(ts) <= Max(o)   \* dense: the next slot(s)
                                     ELSE Nth(W, m + 4 * j + 16 * (k - 2)))
        \/ /\ k = 6 /\ OpenW # {} /\ j = 0 /\ KindOK("commit")
-          /\ LET w == Nth(OpenW, i) IN (wr[w].buf # {} \/ m = 0) /\ ~wr[w].auto /\ GCommit(w)
+          /\ LET w == Nth(OpenW, i) IN (wr[w].buf # {} \/ m = 0) /\ (~wr[w].auto \/ m = 0 \/ PlanId = 7) /\ GCommit(w)
        \/ /\ k = 7 /\ OpenW # {} /\ j = 0 /\ m < 2 /\ KindOK("close")
           /\ LET w == Nth(OpenW, i) IN (wr[w].n > 0 \/ LegalWrites(w) = {}) /\ GClose(w)
        \/ /\ k = 8 /\ j < 2 /\ AnyData
